@@ -75,6 +75,7 @@ Fixpoint dt_ok (cur : bytes) (os : list ostep) : bool :=
              if is_nil cur' then
                bytes_eqb t lit_generic && ((sn_deps (os_sn o) <? 1)%Z || sn_canc (os_sn o))
              else bytes_eqb t cur'
+         | EvPanic => false
          | _ => true
          end
       && dt_ok cur' rest
